@@ -618,6 +618,47 @@ var ruleParams = &core.Rule{ID: "R02.2", Min: 5,
 				continue
 			}
 			ps := call.Call.Args[1]
+			if core.IsString(ps.Type()) {
+				// the charset travels as a plain string ("" = none); the map with the single key charset is built
+				// where the type string is formatted (checked below with the clone)
+				srcs := []ssa.Value{ps}
+				if ph, isPhi := ps.(*ssa.Phi); isPhi {
+					srcs = ph.Edges
+				}
+				okAll, n := true, 0
+				for _, v := range srcs {
+					if k, isC := core.ConstString(v); isC && k == "" {
+						continue
+					}
+					vcall, isCall := v.(*ssa.Call)
+					okOne := false
+					if isCall && vcall.Call.StaticCallee() == nil {
+						if lk := cm.lookupOf(vcall.Call.Value); lk != nil {
+							base, fld, isLoad := core.LoadOfField(lk.key)
+							guarded := false
+							for _, de := range core.DominatingConds(vcall.Block()) {
+								if lk.found(de) {
+									guarded = true
+								}
+							}
+							okOne = isLoad && fld == m.tm.FMime && base == m.shape.cur && len(vcall.Call.Args) == 1 && vcall.Call.Args[0] == ssa.Value(f.Params[1]) && guarded
+						}
+					}
+					if isCall && cm.direct != nil && cm.direct[vcall] != "" {
+						okOne = cm.directKeyBase(c, vcall) == m.shape.cur && len(vcall.Call.Args) == 1 && vcall.Call.Args[0] == ssa.Value(f.Params[1])
+					}
+					if okOne {
+						n++
+					} else {
+						okAll = false
+					}
+				}
+				s.OK("parameter map origin", c.Pos(call.Pos()), "charset carried as a string")
+				s.Check(okAll && n > 0, "charset value provenance", c.Pos(call.Pos()), "\"\" or sniffer[current node's type](header)", "the charset value is not the result of the sniffer selected by the receiver's own type on the walk's unmodified header")
+				s.OK("parameter key", c.Pos(call.Pos()), "the key is fixed where the map is built (checked with the clone)")
+				s.OK("charset only when non-empty", c.Pos(call.Pos()), "the clone formats only a non-empty charset (checked with the clone)")
+				continue
+			}
 			if ph, isPhi := ps.(*ssa.Phi); isPhi {
 				// nil on the paths without a charset, one fresh map on the path with it
 				var one ssa.Value
@@ -762,6 +803,34 @@ var ruleParams = &core.Rule{ID: "R02.2", Min: 5,
 							if g == m.chain {
 								okPs = len(g.Params) > 1 && call.Call.Args[1] == ssa.Value(g.Params[1])
 							}
+							// string carrier: the map is built on the spot with the single constant key charset and the
+							// carried string, and only when that string is not empty
+							strCarrier := false
+							var carrier ssa.Value
+							if g == m.clone && len(g.Params) > 1 && core.IsString(g.Params[1].Type()) {
+								carrier = g.Params[1]
+							} else if g == m.chain && len(g.Params) > 1 && core.IsString(g.Params[1].Type()) {
+								carrier = g.Params[1]
+							}
+							if mk2, isMk := call.Call.Args[1].(*ssa.MakeMap); isMk && carrier != nil {
+								nUpd, okUpd := 0, true
+								for _, ref := range *mk2.Referrers() {
+									switch u := ref.(type) {
+									case *ssa.MapUpdate:
+										nUpd++
+										k, isC := core.ConstString(u.Key)
+										if !isC || k != "charset" || u.Value != carrier {
+											okUpd = false
+										}
+									case *ssa.Call, *ssa.DebugRef:
+									default:
+										okUpd = false
+									}
+								}
+								if nUpd == 1 && okUpd {
+									okPs, strCarrier = true, true
+								}
+							}
 							s.Check(isLoad && fld == m.tm.FMime && nc.src != nil && base == nc.src && okPs, key, c.Pos(call.Pos()), "mime.FormatMediaType(registered type, ps)", "FormatMediaType is not applied to (registered type of the node, the parameter map)")
 							// only when there are parameters: without them the registered string must be copied verbatim
 							// (FormatMediaType lower-cases and re-validates; names of extensions are arbitrary strings)
@@ -773,6 +842,9 @@ var ruleParams = &core.Rule{ID: "R02.2", Min: 5,
 										if (bo.Op == token.GTR && val) || (bo.Op == token.NEQ && val) || (bo.Op == token.EQL && !val) || (bo.Op == token.LEQ && !val) {
 											guarded = true
 										}
+									}
+									if k, isC := core.ConstString(bo.Y); strCarrier && isC && k == "" && bo.X == carrier && ((bo.Op == token.NEQ && val) || (bo.Op == token.EQL && !val)) {
+										guarded = true
 									}
 								}
 							}
@@ -1344,7 +1416,9 @@ func (m *walkModel) copyOf(v ssa.Value) *nodeCopy {
 	if call, ok := v.(*ssa.Call); ok && m.clone != nil && call.Call.StaticCallee() == m.clone {
 		nc := &nodeCopy{val: v, src: call.Call.Args[0], fn: m.clone}
 		if len(call.Call.Args) > 1 && !core.IsNilConst(call.Call.Args[1]) {
-			nc.ps = call.Call.Args[1]
+			if k, isC := core.ConstString(call.Call.Args[1]); !isC || k != "" {
+				nc.ps = call.Call.Args[1]
+			}
 		}
 		return nc
 	}
